@@ -83,3 +83,110 @@ Proof.
   rewrite rd_read_int_be by (change (256 ^ N.of_nat 1) with 256; exact Hl). cbn [bind].
   rewrite rd_read_app. cbn [bind]. reflexivity.
 Qed.
+
+(* ---------------------------------------------------------------------------- *)
+(* a rendered data group (start marker, data lines, end marker; CRLF) parses to
+   one Load token holding exactly those lines                                    *)
+
+Definition raw_of (ndx ty : N) (tag extra : bytes) : bytes :=
+  be 2 ndx ++ [n2b ty] ++ [n2b (blen tag)] ++ tag ++ extra.
+Definition render_line (raw : bytes) : str := [58] ++ hex_upper raw ++ [13; 10].
+Definition text_ok (l : line) : Prop :=
+  exists extra, l_raw l = raw_of (l_ndx l) (l_type l) (l_tag l) extra /\
+                l_ndx l < 65536 /\ l_type l < 254 /\ blen (l_tag l) < 256.
+Definition render_group (ls : list line) : str :=
+  render_line (raw_of 0 254 [] []) ++ flat_map (fun l => render_line (l_raw l)) ls
+  ++ render_line (raw_of 0 255 [] []).
+
+Lemma keep_not_nl c : keep c = true -> (c =? 10) = false.
+Proof.
+  intro H. destruct (c =? 10) eqn:E; [|reflexivity]. apply N.eqb_eq in E. subst. discriminate.
+Qed.
+
+Lemma hex_upper_keep b : forallb keep (hex_upper b) = true.
+Proof.
+  rewrite <- (filter_keep_hex b) at 1. apply forallb_forall. intros x Hx.
+  apply filter_In in Hx as [_ Hx]. exact Hx.
+Qed.
+
+Lemma lines_of_body : forall body acc rest,
+  forallb (fun c => negb (c =? 10)) body = true ->
+  lines_of (body ++ 10 :: rest) acc = (rev acc ++ body ++ [10]) :: lines_of rest [].
+Proof.
+  induction body as [|c t IH]; intros acc rest H.
+  - cbn [app lines_of]. change (10 =? 10) with true. cbv iota. cbn [rev]. reflexivity.
+  - cbn [forallb] in H. apply andb_true_iff in H as [H1 H2]. apply negb_true_iff in H1.
+    cbn [app lines_of]. rewrite H1. rewrite IH by exact H2. cbn [rev]. rewrite <- app_assoc. reflexivity.
+Qed.
+
+Lemma lines_of_render raw rest :
+  lines_of (render_line raw ++ rest) [] = render_line raw :: lines_of rest [].
+Proof.
+  unfold render_line.
+  replace (([58] ++ hex_upper raw ++ [13; 10]) ++ rest)
+    with (([58] ++ hex_upper raw ++ [13]) ++ 10 :: rest)
+    by (rewrite <- !app_assoc; reflexivity).
+  rewrite lines_of_body.
+  - cbn [rev app]. rewrite <- !app_assoc. reflexivity.
+  - rewrite !forallb_app. cbn [forallb]. change (negb (58 =? 10)) with true.
+    change (negb (13 =? 10)) with true. cbn [andb]. rewrite andb_true_r.
+    pose proof (hex_upper_keep raw) as K. rewrite forallb_forall in *. intros x Hx.
+    rewrite (keep_not_nl x (K x Hx)). reflexivity.
+Qed.
+
+Lemma lines_of_group : forall ls rest,
+  lines_of (flat_map (fun l => render_line (l_raw l)) ls ++ rest) [] =
+  map (fun l => render_line (l_raw l)) ls ++ lines_of rest [].
+Proof.
+  induction ls as [|l t IH]; intro rest; [reflexivity|].
+  cbn [flat_map map]. rewrite <- app_assoc, lines_of_render, IH. reflexivity.
+Qed.
+
+Lemma parse_render_line l : text_ok l ->
+  parse_data_line (render_line (l_raw l)) = Ok l.
+Proof.
+  intros (extra & Hr & Hn & Ht & Hl). unfold render_line. rewrite Hr. unfold raw_of.
+  rewrite parse_rendered_line; [|exact Hn|lia|exact Hl|left; reflexivity].
+  fold (raw_of (l_ndx l) (l_type l) (l_tag l) extra). rewrite <- Hr. destruct l; reflexivity.
+Qed.
+
+Lemma parse_lines_data : forall ls acc tail,
+  Forall text_ok ls ->
+  parse_lines (map (fun l => render_line (l_raw l)) ls ++ tail) acc =
+  parse_lines tail (rev ls ++ acc).
+Proof.
+  induction ls as [|l t IH]; intros acc tail H; [reflexivity|].
+  inversion H as [|? ? Hl Ht]; subst. cbn [map app].
+  unfold render_line at 1. cbn [app]. cbn [parse_lines].
+  change (58 :: hex_upper (l_raw l) ++ [13; 10]) with (render_line (l_raw l)).
+  rewrite (parse_render_line l Hl). cbn [bind].
+  destruct Hl as (_ & _ & _ & Hty & _).
+  replace (l_type l =? 255) with false by (symmetry; apply N.eqb_neq; lia).
+  replace (l_type l =? 254) with false by (symmetry; apply N.eqb_neq; lia).
+  rewrite IH by exact Ht. cbn [rev]. rewrite <- app_assoc. reflexivity.
+Qed.
+
+Theorem parse_rendered_group ls : ls <> [] -> Forall text_ok ls ->
+  parse_text (render_group ls) = Ok [Load ls].
+Proof.
+  intros Hne H. unfold parse_text, render_group.
+  rewrite lines_of_render, lines_of_group.
+  rewrite <- (app_nil_r (render_line (raw_of 0 255 [] []))) at 1.
+  rewrite lines_of_render. cbn [lines_of].
+  (* start marker *)
+  unfold render_line at 1. cbn [app parse_lines].
+  change (58 :: hex_upper (raw_of 0 254 [] []) ++ [13; 10]) with (render_line (raw_of 0 254 [] [])).
+  assert (S : parse_data_line (render_line (raw_of 0 254 [] [])) = Ok (mkLine 254 0 [] (raw_of 0 254 [] []))).
+  { unfold render_line, raw_of. apply parse_rendered_line; try reflexivity. left. reflexivity. }
+  rewrite S. cbn [bind l_type]. change (254 =? 255) with false. change (254 =? 254) with true. cbv iota.
+  rewrite parse_lines_data by exact H. rewrite app_nil_r.
+  (* end marker *)
+  unfold render_line at 1. cbn [app parse_lines].
+  change (58 :: hex_upper (raw_of 0 255 [] []) ++ [13; 10]) with (render_line (raw_of 0 255 [] [])).
+  assert (E : parse_data_line (render_line (raw_of 0 255 [] [])) = Ok (mkLine 255 0 [] (raw_of 0 255 [] []))).
+  { unfold render_line, raw_of. apply parse_rendered_line; try reflexivity. left. reflexivity. }
+  rewrite E. cbn [bind l_type]. change (255 =? 255) with true. cbv iota.
+  destruct (rev ls) as [|x r] eqn:R.
+  - exfalso. apply Hne. rewrite <- (rev_involutive ls), R. reflexivity.
+  - cbn [bind]. rewrite <- R, rev_involutive. reflexivity.
+Qed.
